@@ -1,7 +1,7 @@
 """C11 — deferred traits mirror their target: delegation and prototyping."""
 import gc
 
-from traits.api import (DelegatesTo, Dict, Event, HasStrictTraits, HasTraits,
+from traits.api import (Delegate, DelegatesTo, Dict, Event, HasStrictTraits, HasTraits,
                         Instance, Int, List, Property, PrototypedFrom, Set,
                         Str, TraitError, cached_property)
 
@@ -51,6 +51,8 @@ class Child(HasTraits):
     t = DelegatesTo("parent", prefix="_*")      # one-character prefix
     nl = DelegatesTo("parent", listenable=False)
     opt_a = DelegatesTo("parent", listenable=False)
+    #: the legacy spelling with positional options (prefix, modify)
+    lg = Delegate("parent", "y", True)
 
 
 class PChild(HasTraits):
@@ -63,6 +65,7 @@ class PChild(HasTraits):
     t = PrototypedFrom("parent", prefix="_*")
     nl = PrototypedFrom("parent", listenable=False)
     opt_a = PrototypedFrom("parent", listenable=False)
+    lg = Delegate("parent", "y", False)
 
 
 class PChild2(HasTraits):
@@ -478,7 +481,7 @@ def cont_canon(w):
 
 
 ALL_ATTRS = {"x": "x", "xx": "y", "q": "pre_q", "r": "pp_r", "t": "_t",
-             "nl": "nl", "opt_a": "opt_a"}
+             "nl": "nl", "opt_a": "opt_a", "lg": "y"}
 #: listenable=False: values mirror the target, forwarding of notifications
 #: is not promised
 NOLISTEN = {"nl", "opt_a"}
